@@ -510,5 +510,275 @@ Section Walk.
           rewrite <- (Env_app s s1 c1 C1), scan_one. cbn [site_of]. constructor; [|constructor].
           split; assumption.
     Qed.
+
+    Lemma T_code_after_errors scs k kd fl s : STT scs k [] scs k s (code_after_errors kd fl).
+    Proof.
+      unfold code_after_errors. destruct kd; (eapply STT_conv; [st_go | reflexivity ..]).
+    Qed.
+
+    (** the site of a return, nested or at function level *)
+    Lemma ret_site sc er e env (i : instr) :
+      site_of env i = [URet (operand env er)] ->
+      tkD (operand env er) = etk D sc e -> nobad (etk D sc e) ->
+      Forall2 okD (site_of env i) [ERet (etoks D sc e)].
+    Proof. intros -> T B. constructor; [|constructor]. split; assumption. Qed.
+
+    (** ** The control level *)
+    Section Control.
+      Variable IFC : ifstmt -> option string -> option (string * string) -> M unit.
+      Variable LOOP : list stmt -> M unit.
+      Hypothesis HIFC : forall i le ll sc rest k s,
+        STT (sc :: rest) k (if_es D i sc k) (sc :: rest) (if_k D i sc k) s (IFC i le ll).
+      Hypothesis HLOOP : forall body sc rest k s,
+        STT (sc :: rest) k (bs_es D body sc k) (sc :: rest) (bs_k D body sc k) s (LOOP body).
+
+      Lemma T_nested_ret kd e fl sc rest k s :
+        STT (sc :: rest) k (call_sites D sc e ++ [ERet (etoks D sc e)]) (sc :: rest) k s
+            (nested_stmt G fuel RT IFC LOOP kd "" None fl (SRet e)).
+      Proof.
+        cbn [nested_stmt].
+        eapply HT_bind; [apply Dexpr|]. intros r s1 W1 G1 H1.
+        destruct r as [er|].
+        2: { apply HT_ret. intros F. unwrap. fin_all.
+             apply (none_SS sc rest k _ _ _ s s1 (fun sc0 => etk D sc0 e) (fun sc0 => call_sites D sc0 e));
+               try assumption.
+             apply Numbered_nolet, Forall_app. split; [apply calls_nolet|].
+             constructor; [reflexivity | constructor]. }
+        eapply HT_bind; [apply HT_when_error|]. intros u2 s2 W2 G2 H2.
+        eapply HT_bind; [apply HT_emit; reflexivity|]. intros u3 s3 W3 G3 H3.
+        eapply HT_bind; [apply HT_set_return|]. intros u4 s4 W4 G4 H4.
+        apply HT_ret. intros F. unwrap. fin_all.
+        destruct H2 as [_ ->]. destruct H3 as (_ & C3 & V3). destruct H4 as (_ & C4 & V4).
+        apply (SS_expr_use sc rest k s s1 s4 er (IJumpFnRet er) (fun sc0 => etk D sc0 e)
+                           (fun sc0 => call_sites D sc0 e) (ERet (etoks D sc e)) G1 H1);
+          try reflexivity; try congruence; [apply calls_nolet|].
+        intros env T B. apply (ret_site sc er e env); [reflexivity | assumption ..].
+      Qed.
+
+      Lemma T_nested_stmt kd lend lloop fl st sc rest k s :
+        STT (sc :: rest) k (ss_es D st sc k) (ss_sc D st sc k :: rest) (ss_k D st sc k) s
+            (nested_stmt G fuel RT IFC LOOP kd lend lloop fl st).
+      Proof.
+        pose proof T_let_binding. pose proof T_binding. pose proof T_call_stmt.
+        destruct st as [x m t e|x e|f args|i|body|e|e| |].
+        - eapply STT_conv; [cbn [nested_stmt]; st_go | es_norm | reflexivity | reflexivity].
+        - eapply STT_conv; [cbn [nested_stmt]; st_go | es_norm | reflexivity | reflexivity].
+        - eapply STT_conv; [cbn [nested_stmt]; st_go | es_norm | reflexivity | reflexivity].
+        - destruct (ss_if D i sc k) as (E1 & E2 & E3). rewrite E1, E2, E3.
+          destruct kd; (eapply STT_conv; [cbn [nested_stmt]; st_go | es_norm | reflexivity | reflexivity]).
+        - destruct (ss_loop D body sc k) as (E1 & E2 & E3). rewrite E1, E2, E3.
+          eapply STT_conv; [cbn [nested_stmt]; st_go | es_norm | reflexivity | reflexivity].
+        - exact (T_nested_ret kd e fl sc rest k s).
+        - apply HT_panic.
+        - destruct kd, lloop as [[lb le]|]; cbn [nested_stmt]; try apply HT_panic;
+            (eapply STT_conv; [st_go | reflexivity ..]).
+        - destruct kd, lloop as [[lb le]|]; cbn [nested_stmt]; try apply HT_panic;
+            (eapply STT_conv; [st_go | reflexivity ..]).
+      Qed.
+
+      Lemma T_run_body kd lend lloop : forall ss fl sc rest k s,
+        STT (sc :: rest) k (bs_es D ss sc k) (body_scope D ss sc k :: rest) (bs_k D ss sc k) s
+            (run_body G fuel RT IFC LOOP kd lend lloop fl ss).
+      Proof.
+        pose proof T_nested_stmt. pose proof T_code_after_errors.
+        induction ss as [|st ss IH]; intros fl sc rest k s; cbn [run_body].
+        - apply STT_ret.
+        - destruct (bs_cons D st ss sc k) as (E1 & E2 & E3). rewrite E1, E2, E3.
+          eapply STT_conv; [st_go | es_norm | reflexivity | reflexivity].
+      Qed.
+
+      Lemma T_if_body b lend lloop sc rest k s :
+        STT (sc :: rest) k (bs_es D (stmts_of b) sc k) (body_scope D (stmts_of b) sc k :: rest)
+            (bs_k D (stmts_of b) sc k) s (if_body G fuel RT IFC LOOP b lend lloop).
+      Proof.
+        pose proof T_run_body.
+        destruct b as [ss|ss]; cbn [if_body stmts_of]; [|destruct lloop as [ll|]; [|apply HT_panic]];
+          (eapply STT_conv; [st_go | es_norm | reflexivity | reflexivity]).
+      Qed.
+
+      Lemma T_if_condition_step i le ll sc rest k s :
+        STT (sc :: rest) k (if_es D i sc k) (sc :: rest) (if_k D i sc k) s
+            (if_condition_step G fuel RT IFC LOOP i le ll).
+      Proof.
+        pose proof T_if_body. pose proof T_if_condition_calculation.
+        destruct i as [c body els elif]. cbn [if_condition_step].
+        destruct els as [eb|]; [|destruct elif as [ei|]].
+        - destruct (if_sites_else D c body eb elif sc k) as [E1 E2]. rewrite E1, E2.
+          destruct elif as [ei|], le as [le|]; cbn [is_some orb andb negb]; cbv iota;
+            (eapply STT_conv; [st_go | es_norm | reflexivity | reflexivity]).
+        - destruct (if_sites_elif D c body ei sc k) as [E1 E2]. rewrite E1, E2.
+          destruct le as [le|]; cbn [is_some orb andb negb]; cbv iota;
+            (eapply STT_conv; [st_go | es_norm | reflexivity | reflexivity]).
+        - destruct (if_sites_plain D c body sc k) as [E1 E2]. rewrite E1, E2.
+          destruct le as [le|]; cbn [is_some orb andb negb]; cbv iota;
+            (eapply STT_conv; [st_go | es_norm | reflexivity | reflexivity]).
+      Qed.
+
+      Lemma T_loop_tail (c : bool) lb le scs k s :
+        STT scs k [] scs k s
+            (if c then ctx <- gets head_ctx ;;
+                       when (existsb (is_jump_to le) ctx) (emit (ISetLabel le))
+             else emit (IJumpTo lb) ;;; emit (ISetLabel le)).
+      Proof. destruct c; (eapply STT_conv; [st_go | reflexivity ..]). Qed.
+
+      Lemma T_loop_step body sc rest k s :
+        STT (sc :: rest) k (bs_es D body sc k) (sc :: rest) (bs_k D body sc k) s
+            (loop_step G fuel RT IFC LOOP body).
+      Proof.
+        pose proof T_run_body. pose proof T_loop_tail. unfold loop_step.
+        eapply STT_conv; [st_go | es_norm | reflexivity | reflexivity].
+      Qed.
+    End Control.
+
+    Lemma T_control n :
+      (forall i le ll sc rest k s,
+          STT (sc :: rest) k (if_es D i sc k) (sc :: rest) (if_k D i sc k) s
+              (if_condition G fuel RT n i le ll)) /\
+      (forall body sc rest k s,
+          STT (sc :: rest) k (bs_es D body sc k) (sc :: rest) (bs_k D body sc k) s
+              (loop_statement G fuel RT n body)).
+    Proof.
+      induction n as [|n [IH1 IH2]]; split; intros; cbn [if_condition loop_statement];
+        try apply HT_oof.
+      - apply T_if_condition_step; assumption.
+      - apply T_loop_step; assumption.
+    Qed.
+
+    Lemma T_fn_ret returned e sc rest k s :
+      STT (sc :: rest) k (call_sites D sc e ++ [ERet (etoks D sc e)]) (sc :: rest) k s
+          (fn_stmt G fuel RT returned (SRet e)).
+    Proof.
+      cbn [fn_stmt].
+      eapply HT_bind; [apply Dexpr|]. intros r s1 W1 G1 H1.
+      eapply HT_bind; [apply HT_when_error|]. intros u2 s2 W2 G2 H2.
+      destruct r as [er|].
+      2: { apply HT_ret. intros F. unwrap. fin_all. destruct H2 as [_ ->].
+           apply (none_SS sc rest k _ _ _ s s1 (fun sc0 => etk D sc0 e) (fun sc0 => call_sites D sc0 e));
+             try assumption.
+           apply Numbered_nolet, Forall_app. split; [apply calls_nolet|].
+           constructor; [reflexivity | constructor]. }
+      eapply HT_bind; [apply HT_check_type_exists|]. intros ok s3 W3 G3 H3.
+      eapply HT_bind; [apply HT_when_error|]. intros u4 s4 W4 G4 H4.
+      apply HT_gets_bind.
+      eapply HT_bind with
+        (Q1 := fun _ s5 => exists i, (forall env, site_of env i = [URet (operand env er)]) /\
+                                      decl_of i = [] /\ EmitP i s4 s5).
+      { destruct (head_mret (frames s4));
+          (eapply HT_conseq; [apply HT_emit; reflexivity|]; intros u5 s5 _ _ _ H5;
+           eexists; split; [|split; [|exact H5]]; [intro env|]; reflexivity). }
+      intros u5 s5 W5 G5 H5. apply HT_ret. intros F. unwrap. fin_all.
+      destruct H2 as [_ ->]. destruct H3 as (_ & -> & _). destruct H4 as [_ ->].
+      destruct H5 as (i & Hsite & Hdi & _ & C5 & V5).
+      apply (SS_expr_use sc rest k s s1 s5 er i (fun sc0 => etk D sc0 e)
+                         (fun sc0 => call_sites D sc0 e) (ERet (etoks D sc e)) G1 H1);
+        try reflexivity; try assumption; [apply calls_nolet|].
+      intros env T B. apply (ret_site sc er e env); [apply Hsite | assumption ..].
+    Qed.
+
+    Lemma T_fn_stmt returned st sc rest k s :
+      STT (sc :: rest) k (ss_es D st sc k) (ss_sc D st sc k :: rest) (ss_k D st sc k) s
+          (fn_stmt G fuel RT returned st).
+    Proof.
+      pose proof T_let_binding. pose proof T_binding. pose proof T_call_stmt.
+      destruct (T_control fuel) as [HI HL].
+      destruct st as [x m t e|x e|f args|i|body|e|e| |].
+      - eapply STT_conv; [cbn [fn_stmt]; st_go | es_norm | reflexivity | reflexivity].
+      - eapply STT_conv; [cbn [fn_stmt]; st_go | es_norm | reflexivity | reflexivity].
+      - eapply STT_conv; [cbn [fn_stmt]; st_go | es_norm | reflexivity | reflexivity].
+      - destruct (ss_if D i sc k) as (E1 & E2 & E3). rewrite E1, E2, E3.
+        eapply STT_conv; [cbn [fn_stmt]; st_go | es_norm | reflexivity | reflexivity].
+      - destruct (ss_loop D body sc k) as (E1 & E2 & E3). rewrite E1, E2, E3.
+        eapply STT_conv; [cbn [fn_stmt]; st_go | es_norm | reflexivity | reflexivity].
+      - apply T_fn_ret.
+      - exact (T_fn_ret returned e sc rest k s).
+      - apply HT_panic.
+      - apply HT_panic.
+    Qed.
+
+    Lemma T_fn_stmts : forall ss returned sc rest k s,
+      STT (sc :: rest) k (bs_es D ss sc k) (body_scope D ss sc k :: rest) (bs_k D ss sc k) s
+          (fn_stmts G fuel RT returned ss).
+    Proof.
+      pose proof T_fn_stmt.
+      induction ss as [|st ss IH]; intros returned sc rest k s; cbn [fn_stmts].
+      - apply STT_ret.
+      - destruct (bs_cons D st ss sc k) as (E1 & E2 & E3). rewrite E1, E2, E3.
+        eapply STT_conv; [st_go | es_norm | reflexivity | reflexivity].
+    Qed.
   End Stmts.
+
+  (** ** Parameters: declarations without sites *)
+  Definition pnames (ps : list (ident * ast_ty)) : list string := map (fun p => iname (fst p)) ps.
+
+  Lemma T_init_func_params : forall ps sc rest k s,
+    HT Cf s (init_func_params ps)
+       (fun _ s' => exists c, Ctx s' = Ctx s ++ c /\
+          (at_offN NM k (pnames ps) -> SInv (sc :: rest) s -> KInv k s ->
+           scan (Env s) c = [] /\ SInv (fst (param_scope ps sc k) :: rest) s' /\
+           KInv (snd (param_scope ps sc k)) s')).
+  Proof.
+    induction ps as [|[x t] ps IH]; intros sc rest k s; cbn [init_func_params].
+    - apply HT_ret. intros _. exists []. rewrite app_nil_r. split; [reflexivity|].
+      intros _ Hs Hk. repeat split; assumption.
+    - apply HT_lookup_bind. destruct (lookup_frames _ _); [apply HT_error|]. cbv zeta.
+      eapply HT_bind; [apply HT_insert_value|]. intros u1 s1 W1 G1 H1.
+      eapply HT_bind; [apply HT_set_inner_name|]. intros u2 s2 W2 G2 H2.
+      eapply HT_bind; [apply HT_emit; reflexivity|]. intros u3 s3 W3 G3 H3.
+      eapply HT_conseq; [apply (IH ((iname x, k) :: sc) rest (k + 1))|].
+      intros u4 s4 W4 G4 F4 (c4 & C4 & H4). unwrap. fin_all.
+      destruct H1 as (_ & C1 & V1). destruct H2 as (_ & C2 & V2). destruct H3 as (_ & C3 & V3).
+      set (val := Value (iname x) (sem_of_ty t) false) in *.
+      set (i := IFnArg val (iname x) (sem_of_ty t)) in *.
+      assert (C : Ctx s3 = (Ctx s ++ []) ++ [i]) by (rewrite app_nil_r, C3, C2, C1; reflexivity).
+      exists ([i] ++ c4). split; [rewrite C4, C, app_nil_r, app_assoc; reflexivity|].
+      intros Hoff Hs Hk. cbn [pnames map fst] in Hoff. apply at_offN_cons in Hoff as [HNk Hoff'].
+      assert (HDk : nthN D k = Some (v_inner val, v_ty val)).
+      { apply (D_at s s3 [] i k); try assumption; reflexivity. }
+      destruct H4 as (S4 & I4 & K4).
+      + exact Hoff'.
+      + unfold SInv. rewrite V3, V2, V1. apply SInvV_insert; assumption.
+      + apply (KInv_step s s3 [] i k (v_inner val, v_ty val)); try assumption; reflexivity.
+      + cbn [param_scope]. split; [|split; assumption].
+        rewrite dscan_app, scan_one. cbn [site_of app].
+        assert (C03 : Ctx s3 = Ctx s ++ [i]) by (rewrite C, app_nil_r; reflexivity).
+        rewrite <- (Env_app s s3 _ C03). exact S4.
+  Qed.
+
+  Lemma param_scope_k : forall ps sc k, snd (param_scope ps sc k) = k + N.of_nat (length ps).
+  Proof.
+    induction ps as [|[x t] ps IH]; intros sc k; cbn [param_scope length snd]; [lia|].
+    rewrite IH. lia.
+  Qed.
+
+  (** ** One function body *)
+  Lemma T_function_body_m f s :
+    HT Cf s (function_body_m G f)
+       (fun _ s' => exists c kend, Ctx s' = Ctx s ++ c /\
+          Numbered (N.of_nat (length (fn_params f))) (fn_sites D f) kend /\
+          (NMok NM (fn_sites D f) -> at_offN NM 0 (pnames (fn_params f)) ->
+           SInv [[]] s -> KInv 0 s ->
+           Forall2 okD (scan (Env s) c) (fn_sites D f) /\ KInv kend s')).
+  Proof.
+    unfold function_body_m. cbv zeta.
+    eapply HT_bind; [apply (T_init_func_params (fn_params f) [] [] 0)|]. intros u1 s1 W1 G1 H1.
+    eapply HT_bind; [apply (T_fn_stmts (fuel_of f) (sem_of_ty (fn_result f)) (fn_body f) false
+                              (fst (param_scope (fn_params f) [] 0)) []
+                              (snd (param_scope (fn_params f) [] 0)))|].
+    intros returned s2 W2 G2 H2.
+    eapply HT_conseq; [apply HT_when_error|]. intros u3 s3 W3 G3 F3 [_ ->]. unwrap. fin_all.
+    destruct H1 as (c1 & C1 & H1). destruct H2 as (c2 & C2 & N2 & H2).
+    assert (Hes : fn_sites D f = bs_es D (fn_body f) (fst (param_scope (fn_params f) [] 0))
+                                        (snd (param_scope (fn_params f) [] 0))).
+    { unfold fn_sites. destruct (param_scope (fn_params f) [] 0) as [sc0 k0]. cbn [fst snd].
+      apply stmts_sites_eq. }
+    assert (Hk0 : snd (param_scope (fn_params f) [] 0) = N.of_nat (length (fn_params f)))
+      by (rewrite param_scope_k; lia).
+    rewrite Hes, <- Hk0.
+    exists (c1 ++ c2), (bs_k D (fn_body f) (fst (param_scope (fn_params f) [] 0))
+                              (snd (param_scope (fn_params f) [] 0))).
+    split; [rewrite C2, C1, app_assoc; reflexivity|]. split; [exact N2|].
+    intros Hnm Hoff Hs Hk. destruct (H1 Hoff Hs Hk) as (S1 & I1 & K1).
+    destruct (H2 Hnm I1 K1) as (S2 & _ & K2). split; [|exact K2].
+    rewrite dscan_app, S1. cbn [app]. rewrite <- (Env_app s s1 c1 C1). exact S2.
+  Qed.
 End Walk.
